@@ -279,3 +279,25 @@ Definition run_case (fixed : bool) (debug : bool) (archid os : Z) (r : regs) (al
   end.
 
 Definition frame_module (mods : list modspec) (f : frame) : option Z := d_module_at mods (f_instr f).
+
+(* StackFrame::function_base / function_name as fill_source_line_info leaves them (SymbolFile::fill_symbol:
+   `self.functions.get(addr)` -> set_function(name, func.address + module.base_address, ..); the symbol files of the
+   driver have no PUBLIC records): Some (absolute base, name).  T| files: C09's function table; S: / Y| files: their
+   single `FUNC lo size 0 f` record. *)
+Definition frame_function (mods : list modspec) (f : frame) : option (Z * C09.Grammar.rle) :=
+  match mod_of mods (f_instr f) with
+  | Some (b, _, Some s) =>
+      if f_instr f <? b then None else
+      let addr := f_instr f - b in
+      match s_table s with
+      | Some t =>
+          match rm_get (C09.Grammar.t_funcs t) addr with
+          | Some fn => Some (b + C09.Grammar.sf_addr fn, C09.Grammar.sf_name fn)
+          | None => None
+          end
+      | None =>
+          if (0 <? s_func_size s) && (s_func_lo s <=? addr) && (addr <? s_func_lo s + s_func_size s)
+          then Some (b + s_func_lo s, [(102, 1)]) else None
+      end
+  | _ => None
+  end.
